@@ -46,6 +46,14 @@
    - [last_yield_irrelevant_without_yield]: with last_yield = None the "seen
      before yield" clause is false.
 
+   - RMW atomicity ([atomic_store_from], [rmw_atomicity]): a pass changes
+     nothing when the modification order already dominates every st_mo of the
+     ring ([rmw_atomicity_pass_id], [rmw_atomicity_id]); in a single-thread run
+     it does ([store_mo_dominates]), so State::store_from writes the same
+     st_mo as before whatever the source ([atomic_store_from_eq]) and
+     [atomic_store_from_inv] preserves the invariant for any [src];
+     [atomic_store_inv] is the instance src = None.
+
    Not stated: the suggested "ordered according to store AGE" formulation of
    the invariant (slot of the k-th most recent store).  The invariant orders
    the live slots by their key (the thread's clock component at store time)
@@ -638,21 +646,86 @@ Proof.
   - apply (live_seen c' HI Hc Hi).
 Qed.
 
-Lemma atomic_store_inv : forall me s caus c' rel sync0 v o,
-  Inv me s caus -> vle caus c' -> vv_get caus me < vv_get c' me -> me < length c' ->
-  Inv me (atomic_store s me c' rel sync0 v o) c' /\
-  cur (atomic_store s me c' rel sync0 v o) = v.
+(* ---- the RMW-atomicity passes ---- *)
+(* a pass leaves [mo] alone when it already dominates every st_mo of the ring *)
+Lemma fold_left_fix : forall (A B : Type) (f : B -> A -> B) (b : B) (l : list A),
+  (forall a, In a l -> f b a = b) -> fold_left f l b = b.
 Proof.
-  intros me s caus c' rel sync0 v o HI Hc Hlt Hlen.
+  intros A B f b l. induction l as [|a l IH]; intros Hfix.
+  - reflexivity.
+  - cbn [fold_left]. rewrite (Hfix a) by (left; reflexivity).
+    apply IH. intros a' Ha'. apply Hfix. right. exact Ha'.
+Qed.
+
+Lemma rmw_atomicity_pass_id : forall stores src mo,
+  (forall x, In x stores -> vv_le (st_mo x) mo = true) ->
+  rmw_atomicity_pass stores src mo = (mo, false).
+Proof.
+  intros stores src mo Hdom. unfold rmw_atomicity_pass.
+  apply fold_left_fix. intros a Ha. cbv beta iota.
+  destruct (st_rmw_src a) as [[slot sid]|]; [|reflexivity].
+  destruct (src_eqb (Some (slot, sid)) src); [reflexivity|].
+  cbv zeta.
+  destruct (negb (Nat.eqb (st_id (nth slot stores store_default)) sid)); [reflexivity|].
+  rewrite (Hdom a Ha). cbn [negb]. rewrite Bool.andb_false_r. reflexivity.
+Qed.
+
+Lemma rmw_atomicity_id : forall fuel stores src mo,
+  (forall x, In x stores -> vv_le (st_mo x) mo = true) ->
+  rmw_atomicity fuel stores src mo = mo.
+Proof.
+  intros fuel stores src mo Hdom. destruct fuel as [|f]; [reflexivity|].
+  cbn [rmw_atomicity]. rewrite (@rmw_atomicity_pass_id stores src mo Hdom). reflexivity.
+Qed.
+
+(* in a single-thread run the new store's modification order before the passes
+   already dominates every st_mo of the ring (live slots: store_mo_ge; dead
+   slots are store_default with st_mo = vv_new) *)
+Lemma store_mo_dominates : forall me s caus c' x,
+  Inv me s caus -> vv_get caus me <= vv_get c' me ->
+  In x (at_stores s) -> vv_le (st_mo x) (store_mo s c') = true.
+Proof.
+  intros me s caus c' x HI Hc Hin. apply vv_le_spec.
+  apply (In_nth _ _ store_default) in Hin. destruct Hin as [i [Hi Hx]].
+  rewrite (inv_len HI) in Hi.
+  destruct (Nat.lt_ge_cases i (at_cnt s)) as [Hlt|Hge].
+  - subst x. apply (@store_mo_ge me s caus c' i HI Hc). split; assumption.
+  - pose proof (inv_dead HI Hge) as Hd. unfold get_store in Hd.
+    subst x. rewrite Hd. simpl. apply vle_new.
+Qed.
+
+(* so the passes change nothing: the state after State::store_from *)
+Lemma atomic_store_from_eq : forall me s caus c' rel sync0 v o src,
+  Inv me s caus -> vv_get caus me <= vv_get c' me ->
+  atomic_store_from s me c' rel sync0 v o src =
+  at_set_stores s
+    (list_set (at_stores s) (aindex (at_cnt s))
+       (mkStore v c' (store_mo s c') (sync_store sync0 c' rel o)
+                (seen_touch seen_new me (vv_get c' me)) (is_seq_cst o) (at_cnt s) src))
+    (S (at_cnt s)).
+Proof.
+  intros me s caus c' rel sync0 v o src HI Hc.
+  unfold atomic_store_from. cbv zeta. fold (store_mo s c').
+  rewrite rmw_atomicity_id; [reflexivity|].
+  intros x Hx. apply (@store_mo_dominates me s caus c' x HI Hc Hx).
+Qed.
+
+Lemma atomic_store_from_inv : forall me s caus c' rel sync0 v o src,
+  Inv me s caus -> vle caus c' -> vv_get caus me < vv_get c' me -> me < length c' ->
+  Inv me (atomic_store_from s me c' rel sync0 v o src) c' /\
+  cur (atomic_store_from s me c' rel sync0 v o src) = v.
+Proof.
+  intros me s caus c' rel sync0 v o src HI Hc Hlt Hlen.
   assert (Hc' : vv_get caus me <= vv_get c' me) by lia.
   pose proof (aindex_lt (at_cnt s)) as Hidx.
   assert (Hidx' : aindex (at_cnt s) < length (at_stores s)) by (rewrite (inv_len HI); exact Hidx).
-  set (s' := atomic_store s me c' rel sync0 v o).
+  rewrite (@atomic_store_from_eq me s caus c' rel sync0 v o src HI Hc').
+  set (x := mkStore v c' (store_mo s c') (sync_store sync0 c' rel o)
+                    (seen_touch seen_new me (vv_get c' me)) (is_seq_cst o) (at_cnt s) src).
+  set (s' := at_set_stores s (list_set (at_stores s) (aindex (at_cnt s)) x) (S (at_cnt s))).
   assert (Hcnt : at_cnt s' = S (at_cnt s)) by reflexivity.
   assert (Hnew : newest s' = aindex (at_cnt s)).
   { unfold newest. rewrite Hcnt. simpl. rewrite Nat.sub_0_r. reflexivity. }
-  set (x := mkStore v c' (store_mo s c') (sync_store sync0 c' rel o)
-                    (seen_touch seen_new me (vv_get c' me)) (is_seq_cst o)).
   assert (Hget : forall i, get_store s' i = if Nat.eqb i (aindex (at_cnt s)) then x else get_store s i).
   { intros i. apply (get_store_set s x (S (at_cnt s)) i Hidx'). }
   assert (Hgetn : get_store s' (aindex (at_cnt s)) = x).
@@ -709,6 +782,14 @@ Proof.
         apply (inv_order HI (Hlive i Hi Hie) (Hlive j Hj Hje) Hk).
 Qed.
 
+Lemma atomic_store_inv : forall me s caus c' rel sync0 v o,
+  Inv me s caus -> vle caus c' -> vv_get caus me < vv_get c' me -> me < length c' ->
+  Inv me (atomic_store s me c' rel sync0 v o) c' /\
+  cur (atomic_store s me c' rel sync0 v o) = v.
+Proof.
+  intros me s caus c' rel sync0 v o. unfold atomic_store. apply atomic_store_from_inv.
+Qed.
+
 (* ------------------------------------------------------------------ *)
 (* the load part shared by State::load and State::rmw                  *)
 
@@ -744,7 +825,8 @@ Lemma atomic_rmw_unfold : forall s me caus released index so fo f,
           | inl s4 =>
               let sync := st_sync (get_store s4 index) in
               let caus' := sync_load caus sync so in
-              let s5 := atomic_store s4 me caus' released sync next so in
+              let s5 := atomic_store_from s4 me caus' released sync next so
+                          (Some (index, st_id (get_store s4 index))) in
               inl (s5, caus', prev, true)
           end
       | None =>
@@ -1036,9 +1118,10 @@ Proof.
       assert (Hlen2 : me < length c2) by (apply sync_load_len; exact Hlen1).
       assert (Hlt2 : vv_get caus me < vv_get c2 me).
       { pose proof (sync_load_ge c1 sy so me) as Hge. fold c2 in Hge. lia. }
-      destruct (@atomic_store_inv me (ts_state s3 c1) caus c2 vv_new sy next so
+      set (src := Some (newest s, st_id (get_store (ts_state s3 c1) (newest s)))).
+      destruct (@atomic_store_from_inv me (ts_state s3 c1) caus c2 vv_new sy next so src
                   (Inv_ts c1 HI3) Hc2 Hlt2 Hlen2) as [HI' Hcur'].
-      exists (atomic_store (ts_state s3 c1) me c2 vv_new sy next so), c2.
+      exists (atomic_store_from (ts_state s3 c1) me c2 vv_new sy next so src), c2.
       split; [reflexivity|]. split; [exact HI' | exact Hcur'].
     + exists s3, (sync_load c1 (st_sync (get_store s3 (newest s))) fo).
       split; [reflexivity|]. split; [|exact Hcur].
@@ -1092,10 +1175,10 @@ Proof.
   assert (Hcnt : at_cnt s0 = 1) by reflexivity.
   assert (Hnew : newest s0 = 0) by reflexivity.
   set (x := mkStore init caus0 (store_mo s1 caus0) (sync_store vv_new caus0 vv_new Release)
-                    (seen_touch seen_new me (vv_get caus0 me)) false).
+                    (seen_touch seen_new me (vv_get caus0 me)) false 0 None).
   assert (Hget0 : get_store s0 0 = x) by reflexivity.
   assert (Hgeto : forall i, i <> 0 -> get_store s0 i = store_default).
-  { intros i Hi. unfold get_store. cbn [s0 atomic_store at_set_stores at_stores s1 at_cnt].
+  { intros i Hi. unfold get_store. cbn [s0 atomic_store atomic_store_from at_set_stores at_stores s1 at_cnt].
     change (aindex 0) with 0. rewrite list_set_nth_other by lia.
     destruct (Nat.lt_ge_cases i MAX_ATOMIC_HISTORY) as [H7|H7].
     - apply nth_repeat.
